@@ -274,10 +274,10 @@ theorem vMap_ok (sz : SizeOpts) (g : List (PyVal × PyVal) → R (List (PyVal ×
     entry; a JSON object cannot hold one key twice, so no entry is overwritten -/
 theorem map_str_okEq (O : Oracles) (opts : DeserOpts) (kf vf : FieldDecl) (sz : SizeOpts)
     (hs : isStringDecl kf = true) (kvs : List (PyVal × PyVal)) (hdist : strKeysDistinct kvs = true)
-    (hv : ∀ kv ∈ kvs, OkEq (deserThen O { opts with keepUndefined := true } vf kv.2)
-                            (liftThen O { opts with keepUndefined := true } vf kv.2)) :
+    (hv : ∀ kv ∈ kvs, OkEq (deserThen O opts vf kv.2)
+                            (liftThen O opts vf kv.2)) :
     OkEq (deserThen O opts (.mapOf kf vf sz) (.dict kvs)) (liftThen O opts (.mapOf kf vf sz) (.dict kvs)) := by
-  have heq := pairs_equiv O { opts with keepUndefined := true } kf vf hs kvs hv
+  have heq := pairs_equiv O opts kf vf hs kvs hv
   intro z
   constructor
   · intro h
@@ -285,8 +285,8 @@ theorem map_str_okEq (O : Oracles) (opts : DeserOpts) (kf vf : FieldDecl) (sz : 
     rcases bindE_eq_ok h with ⟨y, hy, hvz⟩
     simp only [deser, PyVal.isNone, Bool.false_and, Bool.false_eq_true, if_false, dMap] at hy
     rcases bindE_eq_ok hy with ⟨r, hr, h2⟩
-    change mapE (dPair O { opts with keepUndefined := true } kf vf) kvs = .ok r at hr
-    have hk := dPair_keys O { opts with keepUndefined := true } kf vf hs kvs r hr
+    change mapE (dPair O opts kf vf) kvs = .ok r at hr
+    have hk := dPair_keys O opts kf vf hs kvs r hr
     have hrd : strKeysDistinct r = true := by rw [strKeysDistinct_keys r kvs hk]; exact hdist
     simp only [strKeys_hashable r hrd, Bool.false_eq_true, if_false, dictOfPairs_distinct r hrd] at h2
     cases h2
@@ -294,14 +294,14 @@ theorem map_str_okEq (O : Oracles) (opts : DeserOpts) (kf vf : FieldDecl) (sz : 
     rcases (vMap_ok sz _ r z).mp hvz with ⟨s1, zs, hz, s2, rfl⟩
     change mapE (vPair O kf vf) r = .ok zs at hz
     rcases (heq zs).mp ⟨r, hr, hz⟩ with ⟨r', g1, g2⟩
-    have hk' := lPair_keys O { opts with keepUndefined := true } kf vf hs kvs r' g1
+    have hk' := lPair_keys O opts kf vf hs kvs r' g1
     have hrd' : strKeysDistinct r' = true := by rw [strKeysDistinct_keys r' kvs hk']; exact hdist
     have hlen : r'.length = r.length := by
       have a := congrArg List.length hk; have b := congrArg List.length hk'
       simp only [List.length_map] at a b; omega
     have hL : lift O opts (.mapOf kf vf sz) (.dict kvs) = some (.dict r') := by
       simp only [lift]
-      change (mapO (lPair O { opts with keepUndefined := true } kf vf) kvs).bind _ = _
+      change (mapO (lPair O opts kf vf) kvs).bind _ = _
       rw [g1]
       simp [strKeys_hashable r' hrd', dictOfPairs_distinct r' hrd']
     unfold liftThen
@@ -316,8 +316,8 @@ theorem map_str_okEq (O : Oracles) (opts : DeserOpts) (kf vf : FieldDecl) (sz : 
       rw [hl] at h
       simp only [lift] at hl
       rcases Option.bind_eq_some_iff.mp hl with ⟨r', g1, h2⟩
-      change mapO (lPair O { opts with keepUndefined := true } kf vf) kvs = some r' at g1
-      have hk' := lPair_keys O { opts with keepUndefined := true } kf vf hs kvs r' g1
+      change mapO (lPair O opts kf vf) kvs = some r' at g1
+      have hk' := lPair_keys O opts kf vf hs kvs r' g1
       have hrd' : strKeysDistinct r' = true := by rw [strKeysDistinct_keys r' kvs hk']; exact hdist
       simp only [strKeys_hashable r' hrd', Bool.false_eq_true, if_false, dictOfPairs_distinct r' hrd',
         Option.some.injEq] at h2
@@ -326,14 +326,14 @@ theorem map_str_okEq (O : Oracles) (opts : DeserOpts) (kf vf : FieldDecl) (sz : 
       rcases (vMap_ok sz _ r' z).mp h with ⟨s1, zs, hz, s2, rfl⟩
       change mapE (vPair O kf vf) r' = .ok zs at hz
       rcases (heq zs).mpr ⟨r', g1, hz⟩ with ⟨r, hr, g2⟩
-      have hk := dPair_keys O { opts with keepUndefined := true } kf vf hs kvs r hr
+      have hk := dPair_keys O opts kf vf hs kvs r hr
       have hrd : strKeysDistinct r = true := by rw [strKeysDistinct_keys r kvs hk]; exact hdist
       have hlen : r.length = r'.length := by
         have a := congrArg List.length hk; have b := congrArg List.length hk'
         simp only [List.length_map] at a b; omega
       have hD : deser O opts false (.mapOf kf vf sz) (.dict kvs) = .ok (.dict r) := by
         simp only [deser, PyVal.isNone, Bool.false_and, Bool.false_eq_true, if_false, dMap]
-        change bindE (mapE (dPair O { opts with keepUndefined := true } kf vf) kvs) _ = _
+        change bindE (mapE (dPair O opts kf vf) kvs) _ = _
         rw [hr]
         simp [bindE, strKeys_hashable r hrd, dictOfPairs_distinct r hrd]
       unfold deserThen
